@@ -4,7 +4,7 @@
    with Python's float(), independently of numpy's reader). Definitions only. *)
 From Coq Require Import String.
 From Coq Require Import List Arith ZArith Bool.
-From PV Require Import Base.Index Np.Array Model.Sparse Model.Repr Model.Harness Model.C16IO Model.C16Lines.
+From PV Require Import Base.Index Np.Array Model.Sparse Model.Repr Model.Harness Model.C16IO Model.C16Lines Model.C16Big Model.C16Text.
 Import ListNotations.
 
 Definition ztoken := token Z.
@@ -55,3 +55,22 @@ Definition c16_lines_ok (b : Z) (file : list (list ztoken)) (got : option zobj) 
    the property itself *)
 Definition c16_case (b : Z) (o : zobj) (file : list (list ztoken)) (got : zobj) : bool :=
   c16_file_ok b o file && c16_import_ok b file got && c16_lines_ok b file (Some got) && obj_eqb got o && c16_roundtrip_ok b o.
+
+(* ---- sparse tensors with subscripts / mode sizes in Z (Model/C16Big.v): modes longer than a unary number can hold ---- *)
+Definition zspz := spz Z.
+Definition spz_eqb (A B : zspz) : bool :=
+  vec_eqb (zshape A) (zshape B) && mat_eqb (zsubs A) (zsubs B) && vec_eqb (zvals A) (zvals B).
+Definition zexport_spz (b : Z) (S : zspz) : list (list ztoken) := export_spz_lines Z Z zid b S.
+Definition zimport_spz (b : Z) (file : list (list ztoken)) : option zspz := import_spz_lines Z Z zid z_bits b file.
+(* layout of the real file, import of the real file, the property, and the model's own round trip *)
+Definition c16_big_case (b : Z) (S : zspz) (file : list (list ztoken)) (got : zspz) : bool :=
+  lines_eqb (zexport_spz b S) file && opt_eqb spz_eqb (zimport_spz b file) (Some got) && spz_eqb got S
+  && opt_eqb spz_eqb (zimport_spz b (zexport_spz b S)) (Some S).
+(* a (possibly malformed) sparse file with long modes: the model's verdict is pyttb's *)
+Definition c16_big_lines_ok (b : Z) (file : list (list ztoken)) (got : option zspz) : bool :=
+  opt_eqb spz_eqb (zimport_spz b file) got.
+
+(* ---- the character-level model (Model/C16Text.v): the file as atoms (blank / CR / LF / piece) ---- *)
+Definition zatom := atom Z.
+Definition zimport_text (b : Z) (a : list zatom) : option zobj := import_text Z Z 0%Z zid z_bits b a.
+Definition c16_text_ok (b : Z) (a : list zatom) (got : option zobj) : bool := opt_eqb obj_eqb (zimport_text b a) got.
